@@ -266,7 +266,7 @@ Plan gen_ioerr(uint64_t seed, const string &prop) {
     }
   }
   if (nburst) p.sc = random_sched(r, true);
-  p.seti("max_sites", g_thorough ? 400 : nops <= 12 ? 60 : 36);
+  p.seti("max_sites", g_thorough ? 400 : g_light ? 14 : nops <= 12 ? 60 : 36);
   p.seti("noise", r.chance(0.4));
   return p;
 }
